@@ -17,6 +17,8 @@ Scenario (JSON-serialisable dict, every time in absolute virtual milliseconds, -
               the first write and resumes at `wresume`
   resp        list of [ms, hex]: response bytes delivered to R's connection (dropped when there
               is no open connection of R at that instant)
+  peof        None | ms          the peer closes the connection (EOF) at that instant — end of a
+                                 close-delimited response body
   cancel      None | ms          Task.cancel() of R at that instant; events listed at the same
                                  instant are performed BEFORE the cancel in the same callback
   think       ms the consumer sleeps after the headers before reading the body
@@ -81,6 +83,9 @@ class MemTransport(asyncio.Transport):
         self.wpaused = False
         self.answered = 0
         self.rqueue = []
+        self.lost_pending = False
+        self.marks = None     # env trace list for pause/resume of reading
+        self.delivered = None # env trace list of instants at which bytes reached the protocol
 
     # -- transport API
     def write(self, data):
@@ -107,30 +112,55 @@ class MemTransport(asyncio.Transport):
     def resume_writing_now(self):
         if self.wpaused and not self.closed:
             self.wpaused = False
-            self.proto.resume_writing()
+            if self.lost_pending:
+                self.lost_pending = False
+                self.loop.call_soon(self._lost, None)
+            elif not self.closing:
+                self.proto.resume_writing()
 
     def feed(self, data):
         if self.closed or self.closing:
             return False
         if self.rpaused:
             self.rqueue.append(data)      # a paused transport delivers nothing
-            return True
+            return "queued"
         self.proto.data_received(data)
         return True
 
     def _flush(self):
         while self.rqueue and not self.rpaused and not self.closing:
+            if self.delivered is not None:
+                self.delivered.append(int(round(self.loop.time() * 1000)))
             self.proto.data_received(self.rqueue.pop(0))
 
     def is_closing(self):
         return self.closing
 
     def close(self):
+        # like _SelectorSocketTransport.close(): with unsent data in the write buffer (the peer
+        # does not read: we are above the high-water mark) connection_lost() is delivered only
+        # once the buffer has been flushed — for a peer that never reads: never.
         if not self.closing:
             self.closing = True
+            if self.wpaused:
+                self.lost_pending = True
+            else:
+                self.loop.call_soon(self._lost, None)
+
+    def abort(self):
+        if not self.closed:
+            self.closing = True
+            self.lost_pending = False
             self.loop.call_soon(self._lost, None)
 
-    abort = close
+    def peer_eof(self):
+        """the peer closed its side: asyncio delivers eof_received() (None → close) and connection_lost(None)"""
+        if self.closed or self.closing:
+            return False
+        self.closing = True
+        self.proto.eof_received()
+        self.loop.call_soon(self._lost, None)
+        return True
 
     def _lost(self, exc):
         if not self.closed:
@@ -139,8 +169,12 @@ class MemTransport(asyncio.Transport):
 
     def pause_reading(self):
         self.rpaused = True
+        if self.marks is not None:
+            self.marks.append([int(round(self.loop.time() * 1000)), "p"])
 
     def resume_reading(self):
+        if self.rpaused and self.marks is not None:
+            self.marks.append([int(round(self.loop.time() * 1000)), "r"])
         self.rpaused = False
         if self.rqueue:
             self.loop.call_soon(self._flush)
@@ -174,7 +208,7 @@ class Env:
         self.transports = []
         self.socks = []
         self.unstalled = False
-        self.trace = {"attempts": [], "established": [], "delivered": [], "eof_at": None, "abandoned": []}
+        self.trace = {"attempts": [], "established": [], "delivered": [], "eof_at": None, "abandoned": [], "pauses": []}
 
     def now(self):
         return int(round(self.loop.time() * 1000))
@@ -236,6 +270,8 @@ class Env:
         self.transports.append(tr)
         if tr.owner == "R":
             self.trace["established"].append(self.now())
+            tr.marks = self.trace["pauses"]
+            tr.delivered = self.trace["delivered"]
         proto.connection_made(tr)
         return tr, proto
 
@@ -355,11 +391,19 @@ def run_scenario(sc):
                         # the scripted exchange is over: whoever reuses this connection gets answers
                         tr.answered = bytes(tr.out).count(b"\r\n\r\n")
                         tr.auto = True
-                    if tr.feed(bytes.fromhex(hx)):
-                        env.trace["delivered"].append(ms(loop))
+                    fed = tr.feed(bytes.fromhex(hx))
+                    if fed:
+                        if fed is True:
+                            env.trace["delivered"].append(ms(loop))
                         if last:
                             env.trace["eof_at"] = ms(loop)
             events.append((t, 7 + j, deliver))
+        if sc.get("peof") is not None:
+            def peof():
+                tr = env.r_transport()
+                if tr is not None and tr.peer_eof():
+                    env.trace["eof_at"] = ms(loop)
+            events.append((sc["peof"], 900, peof))
         if sc.get("cancel") is not None:
             def cancel_now():
                 if "R" in tasks:
